@@ -145,3 +145,22 @@ pub assume_specification<T: Clone, E>[ core::result::Result::<&T, E>::cloned ](r
     ensures
         r is Ok ==> res is Ok && call_ensures(T::clone, (r->Ok_0,), res->Ok_0),
         r is Err ==> res is Err && res->Err_0 == r->Err_0;
+
+// R17: `v.iter().any(f)` on a Vec is routed through this boundary function (vstd cannot express `Iterator::any` for
+// slice iterators: its iterator model and the Iterator impl form a definition cycle).  ASSUMED contract, sound for any
+// closure: the result is justified by the closure's own postcondition on some / every element.
+#[verifier::external_body]
+pub fn vec_iter_any<T, F: FnMut(&T) -> bool>(v: &Vec<T>, f: F) -> (r: bool)
+    ensures
+        r ==> exists|i: int| 0 <= i < v@.len() && call_ensures(f, (&#[trigger] v@[i],), true),
+        !r ==> forall|i: int| 0 <= i < v@.len() ==> call_ensures(f, (&#[trigger] v@[i],), false),
+{ v.iter().any(f) }
+
+/// what `ToString::to_string` produces for a value (generic `impl ToString` parameters)
+#[verifier::external_trait_specification]
+#[verifier::external_trait_extension(ToStringSpec via ToStringSpecImpl)]
+pub trait ExToString {
+    type ExternalTraitSpecificationFor: ToString;
+    spec fn to_string_spec(&self) -> Seq<char>;
+    fn to_string(&self) -> (r: String) ensures r@ == self.to_string_spec();
+}
